@@ -228,6 +228,12 @@ PCS = (0x8000, 0x8000, 0x8000, 0x6000, 0xC123, 0xFFFC, 0xFFFD, 0xFFFE, 0xFFFF, 0
 TS48 = (0, 1, 20, 22, 23, 27, 28, 31, 32, 100, 5000, 69888 - 4, 69888 - 9, 69888 - 5, 69888 - 1, 69888 + 23, 69888 * 2 - 4)
 
 
+TS128 = (0, 1, 20, 30, 31, 32, 33, 35, 36, 37, 100, 5000, 70908 - 4, 70908 - 9, 70908 - 5, 70908 - 1, 70908 + 23, 70908 + 35,
+         70908 * 2 - 4)
+# (bank at 0xC000, ROM) configurations of the locked 128K machine used for single steps
+CONF128 = ((1, 0), (4, 1), (7, 0), (0, 1), (3, 1), (6, 0))
+
+
 def r8(rnd):
     return rnd.choice(B8) if rnd.random() < 0.5 else rnd.randrange(256)
 
@@ -271,7 +277,7 @@ def make_case(slot, rnd, variant=0, frame=69888, ia=32):
             regs[hi], regs[hi + 1] = v >> 8, v & 255
     regs[SP] = r16(rnd)
     regs[PC] = pc
-    regs[T] = rnd.choice(TS48) if frame == 69888 else rnd.choice(TS48[:11])
+    regs[T] = rnd.choice(TS48) if frame == 69888 else rnd.choice(TS128 if frame == 70908 else TS48[:11])
     regs[IFF] = rnd.randrange(2)
     regs[IM] = rnd.randrange(3)
     regs[HALT] = 0
@@ -303,3 +309,20 @@ def gen_and_run(args):
         for v in range(variants):
             cases.append(make_case(sl[i], rnd, v))
     return run_cases(cases)
+
+
+def gen_and_run128(args):
+    """(seed, slot_indexes, variants) -> executed cases on the four implementations over 128K memory (locked paging,
+    different banks / ROMs at 0xC000 / 0x0000); stores into hidden pages show up as writes to addresses >= 65536."""
+    seed, idxs, variants = args
+    rnd = random.Random(seed)
+    sl = slots()
+    cases = []
+    for i in idxs:
+        for v in range(variants):
+            page, rom = CONF128[(i + v) % len(CONF128)]
+            c = make_case(sl[i], rnd, 1 + v, frame=70908, ia=36)
+            c['key'] = '%s/128:%d:%d:%d' % (sl[i][1], page, rom, v)
+            c['obs'] = [im.run_case(c) for im in impls128(page, rom)]
+            cases.append(c)
+    return cases
